@@ -162,7 +162,12 @@ def run_combo(arg):
     # (deuterium has no RATE12 binding energy: its ice species only exist with a user table)
     user_eb = {pre + "CO": 1234.0, pre + "D": 650.0, pre + "DCO": 1700.0} if variant.get("user") else {}
     user_y = {pre + "CO": 2.5e-3, pre + "H2O": 4e-3} if variant.get("user") else {}
-    if user_eb:
+    if user_eb and variant.get("own"):
+        # the values are set on the species objects themselves (the setters of Species); the user tables name the same
+        # species with OTHER values: a species' own attribute is the more specific statement and is what must be used
+        chemistrydata.update_binding_energy({k: v + 500.0 for k, v in user_eb.items()})
+        chemistrydata.update_photon_yield({k: 3.0 * v for k, v in user_y.items()})
+    elif user_eb:
         chemistrydata.update_binding_energy(dict(user_eb))
         chemistrydata.update_photon_yield(dict(user_y))
     table = read_rate12()
@@ -185,8 +190,21 @@ def run_combo(arg):
         with quiet():
             if path == "api":
                 reacs = []
+                def own(names):
+                    if not variant.get("own"):
+                        return list(names)
+                    out_ = []
+                    for nm in names:
+                        sp = Species(nm)
+                        if nm in user_eb:
+                            sp.binding_energy = user_eb[nm]
+                        if nm in user_y:
+                            sp.photon_yield = user_y[nm]
+                        out_.append(sp)
+                    return out_
+
                 for i, d in enumerate(descs):
-                    reacs.append(Reaction(list(d["r"]), list(d["p"]), 1.0, 99999.0, d["alpha"], d["beta"], 0.0, ReactionType(d["code"]), i + 1))
+                    reacs.append(Reaction(own(d["r"]), own(d["p"]), 1.0, 99999.0, d["alpha"], d["beta"], 0.0, ReactionType(d["code"]), i + 1))
                 net = Network(reacs, **kw)
             else:
                 lines = []
@@ -198,6 +216,13 @@ def run_combo(arg):
                 f = tmp / f"p.{path}"
                 f.write_text("\n".join(lines) + "\n")
                 net = Network(filelist=str(f), fileformats=path, **kw)
+                if variant.get("own"):
+                    for r_ in net.reaction_list:
+                        for sp in list(r_.reactants) + list(r_.products):
+                            if sp.name in user_eb:
+                                sp.binding_energy = user_eb[sp.name]
+                            if sp.name in user_y:
+                                sp.photon_yield = user_y[sp.name]
         if len(net.reaction_list) != len(descs):
             raise HarnessError(f"{label}: {len(descs)} descriptors vs {len(net.reaction_list)} reactions")
         # refusal matrix: which reactions does the model refuse?
@@ -367,6 +392,12 @@ def combos(tier):
                 if variant.get("grainspec") and path == "uclchem":
                     continue
                 out.append((path, model, variant))
+    # values set on the Species objects themselves while the user tables say something else (every entry path: set after reading for the file formats)
+    for model in MODELS:
+        out.append(("api", model, {"user": True, "own": True}))
+        out.append(("uclchem", model, {"user": True, "own": True}))
+        if not model.startswith("rr07"):
+            out.append(("leeds", model, {"user": True, "own": True}))
     # Leeds with rr07 models as well: refusal matrix only matters there
     for model in ("rr07", "rr07x"):
         out.append(("leeds", model, {}))
